@@ -480,6 +480,14 @@ Fixpoint dag_has (d : dag) (t : tree) : bool :=
        match l with [] => true | x :: r => dag_has d x && go r end) ks
   end.
 
+(* what a walk over the blocks l (in order, repetitions allowed) has to request: those that
+   are neither stored nor met earlier in l *)
+Fixpoint fetches (store : list cid) (l : list cid) : list cid :=
+  match l with
+  | [] => []
+  | x :: r => if memb x store then fetches store r else x :: fetches (x :: store) r
+  end.
+
 Definition kind_view (k : ekind) : view :=
   match k with EPrev => VPrev | ENext => VNext | EOther => VAll end.
 
